@@ -25,6 +25,8 @@ type syEnt struct {
 	run  int // 0 absent from pool.Running(); 1 zero time; 2 exited before qUpdated; 3 exited after; 4 exited == qUpdated
 	ltch bool
 	now  int // what queue.Get shows when the spawned goroutine runs: -1 same as the snapshot, -2 not in the queue, else a state
+	nowP int64 // priority now (-1 = as in the snapshot)
+	runN int   // pool.Running() when the goroutine runs: -1 as in the snapshot, else like `run`
 }
 
 func syRun(ents []syEnt, orphans []syEnt, unknown bool) (string, map[string]interface{}, int) {
@@ -41,8 +43,9 @@ func syRun(ents []syEnt, orphans []syEnt, unknown bool) (string, map[string]inte
 	pool.workers[worker.StateIdle] = 2
 	q := &rqQueue{ents: map[string]container.QueueEnt{}, pool: pool, updated: base}
 	sch := New(ctx, q, pool, nil, time.Minute, time.Second)
-	var entS, runS, latchS, nowS []string
+	var entS, runS, latchS, nowS, runNowS []string
 	q.now = map[string]container.QueueEnt{}
+	pool.runningNow = map[string]time.Time{}
 	stName := []string{"Queued", "Locked", "Running", "Complete", "Cancelled", "OtherState"}
 	for _, e := range ents {
 		uuid := test.ContainerUUID(e.id)
@@ -52,9 +55,13 @@ func syRun(ents []syEnt, orphans []syEnt, unknown bool) (string, map[string]inte
 		if nst == -1 {
 			nst = e.st
 		}
+		np := e.nowP
+		if np < 0 {
+			np = e.prio
+		}
 		if nst >= 0 {
-			q.now[uuid] = container.QueueEnt{Container: arvados.Container{UUID: uuid, State: rqStates[nst], Priority: e.prio}, InstanceType: it}
-			nowS = append(nowS, fmt.Sprintf("(%s, %s)", gN(int64(e.id)), stName[nst]))
+			q.now[uuid] = container.QueueEnt{Container: arvados.Container{UUID: uuid, State: rqStates[nst], Priority: np}, InstanceType: it}
+			nowS = append(nowS, fmt.Sprintf("(%s, (%s, %s))", gN(int64(e.id)), stName[nst], gZ(np)))
 		}
 	}
 	for _, e := range append(append([]syEnt(nil), ents...), orphans...) {
@@ -62,6 +69,14 @@ func syRun(ents []syEnt, orphans []syEnt, unknown bool) (string, map[string]inte
 		if e.run > 0 {
 			pool.running[uuid] = tm[e.run]
 			runS = append(runS, fmt.Sprintf("(%s, %s)", gN(int64(e.id)), gZ(tz[e.run])))
+		}
+		rn := e.runN
+		if rn < 0 {
+			rn = e.run
+		}
+		if rn > 0 {
+			pool.runningNow[uuid] = tm[rn]
+			runNowS = append(runNowS, fmt.Sprintf("(%s, %s)", gN(int64(e.id)), gZ(tz[rn])))
 		}
 		if e.ltch {
 			sch.uuidOp[uuid] = "lock"
@@ -85,10 +100,10 @@ func syRun(ents []syEnt, orphans []syEnt, unknown bool) (string, map[string]inte
 	}
 	pforgets := append([]string(nil), pool.forgot...)
 	pool.Unlock()
-	term := fmt.Sprintf("mksy %s %s %s %s %s %s %s %s %s %s %s", gList(entS), gList(runS), gBool(unknown), gZ(1000), gList(latchS), gList(nowS),
+	term := fmt.Sprintf("mksy %s %s %s %s %s %s %s %s %s %s %s %s", gList(entS), gList(runS), gBool(unknown), gZ(1000), gList(latchS), gList(nowS), gList(runNowS),
 		gList(cancels), gList(kills), gList(pforgets), gList(unlocks), gList(qforgets))
 	desc := map[string]interface{}{"ents(uuid,state,prio,type)": entS, "running(uuid,exited)": runS, "unknown_workers": unknown,
-		"qupdated": 1000, "latched": latchS, "queue_now(uuid,state)": nowS, "cancel": cancels, "kill": kills, "pool_forget": pforgets, "unlock": unlocks, "queue_forget": qforgets}
+		"qupdated": 1000, "latched": latchS, "queue_now(uuid,state,prio)": nowS, "running_now(uuid,exited)": runNowS, "cancel": cancels, "kill": kills, "pool_forget": pforgets, "unlock": unlocks, "queue_forget": qforgets}
 	return term, desc, len(cancels) + len(kills) + len(unlocks) + len(qforgets)
 }
 
@@ -110,9 +125,15 @@ func TestVerifC14Sync(t *testing.T) {
 		var ents, orphans []syEnt
 		var tags []string
 		for k := 0; k < ne; k++ {
-			e := syEnt{id: k + 1, st: r.Intn(6), prio: int64([]int{0, 0, 1, 5, 9}[r.Intn(5)]), run: r.Intn(5), ltch: r.Chance(1, 8), now: -1}
+			e := syEnt{id: k + 1, st: r.Intn(6), prio: int64([]int{0, 0, 1, 5, 9}[r.Intn(5)]), run: r.Intn(5), ltch: r.Chance(1, 8), now: -1, nowP: -1, runN: -1}
 			if r.Chance(1, 4) { // the queue has moved on by the time the goroutine runs
 				e.now = []int{-2, 0, 1, 2, 4}[r.Intn(5)]
+			}
+			if r.Chance(1, 5) {
+				e.nowP = int64([]int{0, 5}[r.Intn(2)])
+			}
+			if r.Chance(1, 4) { // so has the pool (e.g. the exited placeholder was forgotten, or a new process runs)
+				e.runN = r.Intn(5)
 			}
 			if r.Chance(1, 3) {
 				e.run = 0
@@ -121,7 +142,7 @@ func TestVerifC14Sync(t *testing.T) {
 			tags = append(tags, fmt.Sprintf("state=%d", e.st), fmt.Sprintf("run=%d", e.run))
 		}
 		for k := 0; k < r.Intn(3); k++ {
-			orphans = append(orphans, syEnt{id: 100 + k, run: 1 + r.Intn(4), ltch: r.Chance(1, 6), now: -2})
+			orphans = append(orphans, syEnt{id: 100 + k, run: 1 + r.Intn(4), ltch: r.Chance(1, 6), now: -2, nowP: -1, runN: -1})
 		}
 		unknown := r.Chance(1, 3)
 		term, desc, nact := syRun(ents, orphans, unknown)
@@ -146,7 +167,8 @@ func TestVerifC14SyncExh(t *testing.T) {
 				for l := 0; l < 2; l++ {
 					for u := 0; u < 2; u++ {
 						for orph := 0; orph < 3; orph++ {
-							for _, now := range []int{-1, -2, 0, 1} {
+							for _, nowrn := range [][2]int{{-1, -1}, {-2, -1}, {0, -1}, {1, -1}, {1, 0}, {1, 1}, {1, 2}} {
+								now, runN := nowrn[0], nowrn[1]
 								i := idx
 								idx++
 								if only >= 0 && i != only {
@@ -154,10 +176,10 @@ func TestVerifC14SyncExh(t *testing.T) {
 								}
 								var orphans []syEnt
 								if orph > 0 {
-									orphans = []syEnt{{id: 100, run: orph, ltch: false, now: -2}}
+									orphans = []syEnt{{id: 100, run: orph, ltch: false, now: -2, nowP: -1, runN: -1}}
 								}
-								term, desc, nact := syRun([]syEnt{{id: 1, st: st, prio: prio, run: run, ltch: l == 1, now: now}}, orphans, u == 1)
-								cs.Add(i, term, desc, nact >= 1, fmt.Sprintf("state=%d", st), fmt.Sprintf("run=%d", run), fmt.Sprintf("now=%d", now))
+								term, desc, nact := syRun([]syEnt{{id: 1, st: st, prio: prio, run: run, ltch: l == 1, now: now, nowP: -1, runN: runN}}, orphans, u == 1)
+								cs.Add(i, term, desc, nact >= 1, fmt.Sprintf("state=%d", st), fmt.Sprintf("run=%d", run), fmt.Sprintf("now=%d", now), fmt.Sprintf("runnow=%d", runN))
 							}
 						}
 					}
